@@ -78,6 +78,11 @@ func runC11(src sim.Source, o Opts) *Result {
 				if src.Intn("star", 2) == 1 {
 					p.Method, p.Path = "OPTIONS", "*"
 				}
+			case 3:
+				if src.Intn("emptypath", 3) == 2 {
+					p.Path = "" // absolute-form request target without a path: one slash short of the root
+					res.inc("probes_with_empty_path")
+				}
 			}
 			if p.Host != "" && !strings.ContainsAny(p.Host, ":") && !strings.HasSuffix(p.Host, ".") && src.Intn("nearmisshost", 6) == 0 {
 				oh, _ := world.Instantiate(src, rr.pool[src.Intn("op", len(rr.pool))])
